@@ -516,3 +516,16 @@ Theorem c16_code_headers_len : forall a, gen_am_headers_len (am_added a) (am_uns
 Proof. exact gen_am_headers_len_eq. Qed.
 Print Assumptions c16_code_headers.
 Print Assumptions c16_code_headers_len.
+
+(* ================================================================== the vector behind the added headers (translated from the source) *)
+(** The added headers live in an ArrayVec of capacity MAX_EXTRA_HEADERS.  src/util.rs ArrayVec::push, translated: on the visible
+    part of a vector of any capacity it appends, and it panics exactly when the vector is full (proofs/Gen2_equiv_arrayvec.v). *)
+From Hoot.proofs Require Import Gen2_equiv_arrayvec.
+Theorem c16_code_arrayvec_push_capped : forall T cap n (arr : list T) v,
+  len arr = cap -> n <= cap ->
+  if cap <=? len (gen_arrayvec_deref T n arr)
+  then exists site, gen_arrayvec_push T n arr v = Panic site
+  else exists arr', gen_arrayvec_push T n arr v = Ok (n + 1, arr', tt) /\ len arr' = cap /\
+                    gen_arrayvec_deref T (n + 1) arr' = gen_arrayvec_deref T n arr ++ [v].
+Proof. exact gen_arrayvec_push_capped. Qed.
+Print Assumptions c16_code_arrayvec_push_capped.
